@@ -98,6 +98,12 @@ pub enum Fault {
     Stall,
     /// acknowledge, then close the connection: the NEXT request fails on the stale connection
     AckThenClose,
+    /// send the response head, then go silent on that response past emit's request timeout (gRPC:
+    /// HEADERS without END_STREAM, the connection keeps working; HTTP/1: status 200 + an announced body
+    /// that never comes — a control, the status is all emit reads there)
+    StallAfterHeaders,
+    /// the same after a fragment of the response body
+    StallMidBody,
 }
 
 impl Fault {
@@ -111,6 +117,8 @@ impl Fault {
             Fault::ReadThenClose => "read-then-close",
             Fault::Stall => "stall",
             Fault::AckThenClose => "ack-then-close",
+            Fault::StallAfterHeaders => "stall-after-headers",
+            Fault::StallMidBody => "stall-mid-body",
         }
     }
 
@@ -123,6 +131,8 @@ impl Fault {
             Fault::ReadThenClose => Decision::ReadThenClose,
             Fault::Stall => Decision::Stall,
             Fault::AckThenClose => Decision::AckThenClose,
+            Fault::StallAfterHeaders => Decision::StallAfterHeaders,
+            Fault::StallMidBody => Decision::StallMidBody,
         }
     }
 }
@@ -196,7 +206,10 @@ impl Scenario {
         self.streams
             .iter()
             .flatten()
-            .map(|s| s.faults.len() as u32 + s.faults.iter().filter(|f| f.fault == Fault::AckThenClose).count() as u32)
+            .map(|s| {
+                s.faults.len() as u32
+                    + s.faults.iter().filter(|f| matches!(f.fault, Fault::AckThenClose | Fault::StallAfterHeaders | Fault::StallMidBody)).count() as u32
+            })
             .max()
             .unwrap_or(0)
     }
@@ -205,7 +218,7 @@ impl Scenario {
         self.streams
             .iter()
             .flatten()
-            .map(|s| s.faults.iter().filter(|f| f.fault == Fault::Stall).count() as u32)
+            .map(|s| s.faults.iter().filter(|f| matches!(f.fault, Fault::Stall | Fault::StallAfterHeaders | Fault::StallMidBody)).count() as u32)
             .max()
             .unwrap_or(0)
     }
@@ -584,6 +597,10 @@ fn decision_label(d: &Decision, transport: Transport) -> &'static str {
         Decision::CloseBeforeRead => "close-before-read",
         Decision::ReadThenClose => "read-then-close",
         Decision::Stall => "stall",
+        Decision::StallAfterHeaders if transport == Transport::Grpc => "grpc-stall-after-headers",
+        Decision::StallAfterHeaders => "http1-stall-after-headers",
+        Decision::StallMidBody if transport == Transport::Grpc => "grpc-stall-mid-body",
+        Decision::StallMidBody => "http1-stall-mid-body",
         Decision::Hold(_) => "hold",
     }
 }
@@ -646,6 +663,10 @@ pub fn judge(sc: &Scenario, obs: &Observed, cx: &mut Cx) -> Result<Result<(), St
             } else if r.decision == Decision::AckThenClose {
                 any_failed = true;
                 cx.class("fault:ack-then-close");
+            } else if matches!(r.decision, Decision::StallAfterHeaders | Decision::StallMidBody) {
+                // HTTP/1 control: acknowledged by its status line, the connection is useless afterwards
+                any_failed = true;
+                cx.class(&format!("fault:{}", decision_label(&r.decision, r.transport)));
             }
         }
     }
@@ -791,7 +812,7 @@ pub fn judge(sc: &Scenario, obs: &Observed, cx: &mut Cx) -> Result<Result<(), St
         let no_failure = log
             .iter()
             .filter(|r| r.signal == Some(*s))
-            .all(|r| r.outcome == Outcome::Acked && r.decision != Decision::AckThenClose);
+            .all(|r| r.outcome == Outcome::Acked && !matches!(r.decision, Decision::AckThenClose | Decision::StallAfterHeaders | Decision::StallMidBody));
         // ... and none failed on the client side either (by emit's own count; only known when the
         // emitter was still alive at the end)
         let client_failures = if after_drop { None } else { obs.client_failed.get(s).copied() };
@@ -832,7 +853,8 @@ pub fn judge(sc: &Scenario, obs: &Observed, cx: &mut Cx) -> Result<Result<(), St
                 format!("request {} ({}) failed carrying {:?}; requests of the signal: {}", r.seq, decision_label(&r.decision, r.transport), ids.iter().map(|i| rel(*i)).collect::<Vec<_>>(), describe(log, sig)),
             )?;
         }
-        if r.outcome == Outcome::Dropped {
+        // (only faults that take the whole connection down; a stalled gRPC response loses its stream only)
+        if r.outcome == Outcome::Dropped && matches!(r.decision, Decision::CloseBeforeRead | Decision::ReadThenClose | Decision::Stall) {
             if let Some(next) = later.first() {
                 if next.conn == r.conn {
                     cx.fail("request-on-dropped-connection", format!("connection {} was dropped at request {} but request {} used it again", r.conn, r.seq, next.seq))?;
